@@ -117,6 +117,14 @@ theorem emit_oom (o o' : Oracle) (s s' : St) (a b : Nat)
     (h : emit o s a b = (o', s', .oom)) : s'.v = s.v := by
   unfold emit at h; oom_tac h
 
+theorem inst_oom (o o' : Oracle) (s s' : St) (a b : Nat)
+    (h : inst o s a b = (o', s', .oom)) : s'.v = s.v := by
+  unfold inst at h; oom_tac h
+
+theorem jmpf_oom (o o' : Oracle) (s s' : St) (a : Nat)
+    (h : jmpf o s a = (o', s', .oom)) : s'.v = s.v := by
+  unfold jmpf at h; oom_tac h
+
 theorem vappend_oom (o o' : Oracle) (s s' : St) (a : Nat)
     (h : vappend o s a = (o', s', .oom)) : s'.v = s.v := by
   unfold vappend at h; oom_tac h
